@@ -127,6 +127,10 @@ def main(run):
     ac_cfg = diag["ac"]
     diffs = regen_lock.differences(c) + regen_lock.differences(rc_cfg, "[COAP_THREAD_RECURSIVE_CHECK variant] ") + \
         regen_lock.differences(ac_cfg, "[autoconf configuration] ")
+    if diag["wait"]["stale_event_paths"]:
+        diffs.append("coap_io_process_with_fds_lkd hands epoll events to coap_io_do_epoll_lkd that were collected "
+                     "while the lock was released (sockets of sessions freed in between are dereferenced): paths %s"
+                     % diag["wait"]["stale_event_paths"])
     if (diag["static"]["compiled"], diag["static"]["reports"]) != (compiled, reports):
         diffs.append("the built library (lock functions present=%s, coap_threadsafe_is_supported()=%s) differs from "
                      "what the preprocessor says for the same configuration (%s, %s)"
@@ -155,12 +159,12 @@ def main(run):
         # --replay <file>: only the case / the stress command recorded in a replay file
         txt = open(run.replay).read()
         mcase = re.search(r"^case: (lk .*)$", txt, re.M)
-        mcmd = re.search(r"h_lock_stress (\d+) (\d+) (\d+)\s+\(variant (\w+)\)", txt)
+        mcmd = re.search(r"h_lock_stress (\d+) (\d+) (\d+)(?: (\d+))?\s+\(variant (\w+)\)", txt)
         lines = [mcase.group(1)] if mcase else []
         kinds = ["replay"] * len(lines)
         n = 0
         if mcmd:
-            replay_stress = [(mcmd.group(4), int(mcmd.group(1)), int(mcmd.group(2)))]
+            replay_stress = [(mcmd.group(5), int(mcmd.group(1)), int(mcmd.group(2)), int(mcmd.group(4) or 0))]
     for _ in range(n):
         ln, style = gen_lock.gen_case(r)
         lines.append(ln)
